@@ -129,6 +129,14 @@ func structFieldValue(st *types.Struct, i int, index []int) value {
 	}
 }
 
+func ext۰reflect۰rtype۰Key(fr *frame, args []value) value {
+	m, ok := args[0].(rtype).t.Underlying().(*types.Map)
+	if !ok {
+		panic(runtimeError("reflect: Key of non-map type"))
+	}
+	return makeReflectType(rtype{m.Key()})
+}
+
 func ext۰reflect۰rtype۰Field(fr *frame, args []value) value {
 	st, ok := args[0].(rtype).t.Underlying().(*types.Struct)
 	if !ok {
@@ -417,8 +425,12 @@ func ext۰reflect۰Value۰Len(fr *frame, args []value) value {
 }
 
 func ext۰reflect۰Value۰MapIndex(fr *frame, args []value) value {
-	tElem := rV2T(args[0]).t.Underlying().(*types.Map).Elem()
+	mt := rV2T(args[0]).t.Underlying().(*types.Map)
+	tElem := mt.Elem()
 	k := rV2V(args[1])
+	if kt := rV2T(args[1]).t; !types.AssignableTo(kt, mt.Key()) {
+		panic(runtimeError(fmt.Sprintf("reflect.Value.MapIndex: value of type %s is not assignable to type %s", kt, mt.Key())))
+	}
 	switch m := rV2V(args[0]).(type) {
 	case *smap:
 		if v, ok := m.lookup(fr.i, k); ok {
@@ -814,6 +826,7 @@ func (P *Program) initReflect() {
 		"Size":          newMethod(i.reflectPackage, rtypeType, "Size"),
 		"String":        newMethod(i.reflectPackage, rtypeType, "String"),
 		"Name":          newMethod(i.reflectPackage, rtypeType, "Name"),
+		"Key":           newMethod(i.reflectPackage, rtypeType, "Key"),
 		"FieldByName":   newMethod(i.reflectPackage, rtypeType, "FieldByName"),
 		"IsVariadic":    newMethod(i.reflectPackage, rtypeType, "IsVariadic"),
 		"AssignableTo":  newMethod(i.reflectPackage, rtypeType, "AssignableTo"),
